@@ -357,9 +357,9 @@ func proveP(facts []pFact, a *pt, op token.Token, b *pt) bool {
 		for round := 0; round < 2; round++ {
 			for _, x := range nes {
 				if ProveNonNeg(x.e, lf) {
-					lf = append(lf, Fact{E: x.e.Sub(linConst(1))})
+					lf = append(lf, Fact{E: intTighten(x.e.Sub(linConst(1)))})
 				} else if ProveNonNeg(x.e.Scale(-1), lf) {
-					lf = append(lf, Fact{E: x.e.Scale(-1).Sub(linConst(1))})
+					lf = append(lf, Fact{E: intTighten(x.e.Scale(-1).Sub(linConst(1)))})
 				}
 			}
 		}
